@@ -164,39 +164,7 @@ def rule_pad_structure(ctx, crate, rule="R-PAD-STRUCTURE"):
     ctx.check(len(diffs) == 1, rule, "pad-total", b.name, K.fn_loc(b), "total padding = width.saturating_sub(columns)", "total padding is not width - columns (saturating)", cfg)
     if not diffs:
         return
-    dl = diffs[0].dest["l"]
-    # per alignment: the (left, right) tuple built in the arm
-    seen = set()
-    for vs, reg, sb, pl in K.variant_regions(b, crate, "style::Alignment"):
-        if len(vs) != 1 or sb not in b.reach_after(diffs[0].bb):
-            continue
-        v = next(iter(vs))
-        tups = [(i, s) for i, j, s in b.assigns() if i in reg and s["rv"]["k"] == "agg" and s["rv"]["ak"] == "tuple" and len(s["rv"]["ops"]) == 2]
-        if not tups:
-            continue
-        seen.add(v)
-        i, s = tups[-1]
-        l_op, r_op = s["rv"]["ops"]
-
-        def shape(o):
-            if is_const(o, 0):
-                return "0"
-            sl = b.slice(o, at=i, through_calls=True)
-            if dl not in sl.locals:
-                return "?"
-            half = any(d["kind"] == "assign" and d["rv"]["k"] == "bin" and d["rv"]["op"] == "Div" and is_const(d["rv"]["b"], 2) for d in sl.defs)
-            sub = sl.has_call(r"core::num::<impl usize>::saturating_sub") and any(x.bb != diffs[0].bb for x in sl.calls_matching(r"core::num::<impl usize>::saturating_sub")) \
-                or ("binop", "SubWithOverflow") in sl.atoms or ("binop", "Sub") in sl.atoms
-            if half and sub:
-                return "d-d/2"
-            if half:
-                return "d/2"
-            return "d"
-        got = (shape(l_op), shape(r_op))
-        want = {"Left": ("0", "d"), "Right": ("d", "0"), "Center": ("d/2", "d-d/2")}.get(v)
-        ctx.check(got == want, rule, "pads:%s" % v, b.name, "%s:%d" % (b.file, s.get("line", 0)),
-                  "%s alignment pads (left, right) = %s" % (v, want), "%s alignment pads (left, right) = %s, expected %s" % (v, got, want), cfg)
-    ctx.floor(rule, len(seen), 3, cfg, "alignment arms of the padding branch")
+    # (how the total is split per alignment is decided by R-TRUNC-CONSERVES: left + right = width - columns, on linear forms)
     # over-wide, non-truncating: the whole string is written and nothing else
     ws = b.calls(r"std::fmt::Formatter::<'a>::write_str")
     whole = []
@@ -238,7 +206,8 @@ def rule_wide_msg(ctx, crate, rule="R-WIDE-MSG"):
         ctx.check(is_const(f["truncate"], True), rule, "truncates", b.name, "%s:%d" % (b.file, s.get("line", 0)), "wide_msg always truncates",
                   "wide_msg does not truncate: a long message makes the line wider than the terminal", cfg)
         wsl = b.slice(f["width"], at=i)
-        ok = wsl.has_call(r"console::measure_text_width") and wsl.has_call(r"core::num::<impl usize>::saturating_sub") and any(b.locals[p]["ty"] == "u16" for p in wsl.params())
+        ok = wsl.has_call(r"console::measure_text_width") and wsl.has_call(r"core::num::<impl usize>::saturating_sub") and \
+            (any(b.locals[p]["ty"] == "u16" for p in wsl.params()) or any(a[0] == "field" and "width" in str(a[2]) for a in wsl.atoms))
         ctx.check(ok, rule, "width-is-rest-of-line", b.name, "%s:%d" % (b.file, s.get("line", 0)), "width = terminal width - measured rest of the line (saturating)",
                   "wide_msg's width is not the columns left on the line", cfg)
         narrowed = wsl.has_field("message", "state::ProgressState") or wsl.has_call(r"std::cmp::Ord::(min|max|clamp)", r"core::num::<impl usize>::(min|max|clamp)", r"std::cmp::(min|max)")
@@ -408,27 +377,41 @@ def rule_trunc_keeps_width(ctx, crate, rule="R-TRUNC-CONSERVES"):
     excess = A.add(cols, width, -1)
     diff = A.add(width, cols, -1)
     n = 0
-    # tuples (a, b) built per alignment arm
-    for vs, reg, sb, pl in K.variant_regions(b, crate, "style::Alignment"):
-        if len(vs) != 1:
-            continue
-        v = next(iter(vs))
-        tups = [(i, s) for i, j, s in b.assigns() if i in reg and s["rv"]["k"] == "agg" and s["rv"].get("ak") == "tuple" and len(s["rv"]["ops"]) == 2]
-        if not tups:
-            continue
-        i, s = tups[-1]
-        fa, fb = A.linform(b, s["rv"]["ops"][0], i), A.linform(b, s["rv"]["ops"][1], i)
-        lens = [k for k in list(fa) + list(fb) if isinstance(k, tuple) and k[0] == "call" and k[1].endswith("::len")]
-        n += 1
-        if lens:
-            # truncation arm: start + len - end - excess == 0
-            res = A.add(A.add(A.add(fa, {lens[0]: 1}), fb, -1), excess, -1)
-            ctx.check(not res, rule, "cut=excess:%s" % v, b.name, "%s:%d" % (b.file, s.get("line", 0)),
-                      "%s truncation removes exactly the excess: start + (len - end) = columns - width" % v,
-                      "%s truncation does not remove exactly the excess columns: start + (len - end) - excess = %s (the field keeps more or fewer than W columns)" % (v, A.show(res)), cfg)
-        else:
-            res = A.add(A.add(fa, fb), diff, -1)
-            ctx.check(not res, rule, "pads=diff:%s" % v, b.name, "%s:%d" % (b.file, s.get("line", 0)),
-                      "%s padding adds exactly the missing columns: left + right = width - columns" % v,
-                      "%s padding does not add up to the missing columns: left + right - (width - columns) = %s" % (v, A.show(res)), cfg)
+    # anchored at the uses: the bounds of the slice `str.get(start..end)` and the counts of the two runs of spaces, each
+    # evaluated on the CFG specialised to one alignment (so tuples, ranges or structs built per arm or after the match,
+    # in this function or in an inlined helper, all look the same)
+    gets = [c for c in b.calls(r"core::str::<impl str>::get", r"core::str::traits::<impl std::ops::Index<I> for str>::index", r"std::ops::Index::index") if len(c.args) >= 2]
+    pads = [r for r in K.repeated_writes(crate, b) if const_val(r["call"].args[1]) == " "]
+    for v in K.variant_names(crate, "style::Alignment") or []:
+        R = K.variant_reach(b, crate, "style::Alignment", v)
+        with b.restricted(R):
+            for c in gets:
+                if c.bb not in R:
+                    continue
+                rl = operand_local(c.args[1])
+                rd, at_bb = [], c.bb
+                for _ in range(6):          # the Range aggregate, through plain copies (e.g. a helper's return value)
+                    ds_ = [d for d in b.defs().get(rl, ()) if d["kind"] == "assign" and not d["lhs"]["p"] and b.def_reaches(d, at_bb)] if rl is not None else []
+                    rd = [d for d in ds_ if d["rv"]["k"] == "agg" and str(d["rv"].get("adt", "")).endswith("::Range")]
+                    if rd or len(ds_) != 1 or ds_[0]["rv"]["k"] != "use" or ds_[0]["rv"]["op"].get("k") == "const" or ds_[0]["rv"]["op"]["place"]["p"]:
+                        break
+                    rl, at_bb = operand_local(ds_[0]["rv"]["op"]), ds_[0]["bb"]
+                if len(rd) != 1:
+                    continue
+                fa, fb = A.linform(b, rd[0]["rv"]["ops"][0], rd[0]["bb"]), A.linform(b, rd[0]["rv"]["ops"][1], rd[0]["bb"])
+                lens = [k for k in list(fa) + list(fb) if isinstance(k, tuple) and k[0] == "call" and k[1].endswith("::len")]
+                n += 1
+                res = A.add(A.add(A.add(fa, {lens[0]: 1} if lens else {}), fb, -1), excess, -1)
+                ctx.check(bool(lens) and not res, rule, "cut=excess:%s" % v, b.name, c.loc(),
+                          "%s truncation removes exactly the excess: start + (len - end) = columns - width" % v,
+                          "%s truncation does not remove exactly the excess columns: start + (len - end) - excess = %s (the field keeps more or fewer than W columns)" % (v, A.show(res)), cfg)
+            here = [r for r in pads if r["site"] in R and r["bound"] is not None]
+            if len(here) == 2:
+                n += 1
+                fa = A.linform(b, here[0]["bound"], here[0]["range_bb"])
+                fb = A.linform(b, here[1]["bound"], here[1]["range_bb"])
+                res = A.add(A.add(fa, fb), diff, -1)
+                ctx.check(not res, rule, "pads=diff:%s" % v, b.name, here[0]["call"].loc(),
+                          "%s padding adds exactly the missing columns: left + right = width - columns" % v,
+                          "%s padding does not add up to the missing columns: left + right - (width - columns) = %s" % (v, A.show(res)), cfg)
     ctx.floor(rule, n, 6, cfg, "alignment arms (3 truncating, 3 padding)")
